@@ -72,8 +72,8 @@ impl B {
             self.out(&name, dt);
             format!("intermediate #{i} is also a graph output")
         } else {
-            let s = self.op("Shape", &[&name]);
-            self.out(&s, Dt::I64);
+            let s = self.op("Neg", &[&name]);
+            self.out(&s, dt);
             format!("intermediate #{i} also feeds another operator")
         }
     }
